@@ -130,7 +130,13 @@ func CheckPillarBalance(g *GenesisConfig) error {
 }
 func CheckTokenTotalSupply(g *GenesisConfig) error {
 	given := make(map[types.ZenonTokenStandard]*big.Int)
+	seen := make(map[types.Address]struct{})
 	for _, block := range g.GenesisBlocks.Blocks {
+		// an account gets a single genesis block; a second entry would overwrite balances of the first
+		if _, ok := seen[block.Address]; ok {
+			return errors.Errorf("more than one genesis block for %v", block.Address)
+		}
+		seen[block.Address] = struct{}{}
 		for zts, amount := range block.BalanceList {
 			total, ok := given[zts]
 			if !ok {
